@@ -602,6 +602,12 @@ fn history(rng: &mut Rng, len: usize, disciplined: bool) -> Case {
                 3 // the client half holds a stream and the server half has neither stream nor work: give it work
             } else if c0.sink_state == 2 && s0.sink_state == 0 && s0.pending.is_some() && rng.chance(2, 3) {
                 20 // ... and poll both
+            } else if run.open_request[CLIENT] && !run.closed && rng.chance(1, 2) {
+                7 // answer the client half's request
+            } else if run.open_request[SERVER] && rng.chance(1, 3) {
+                9 // answer the server half's request
+            } else if (c0.sink_state == 2 || s0.sink_state == 2) && rng.chance(1, 3) {
+                20 // a half holds a stream: let it write
             } else {
                 rng.below(26)
             }
@@ -729,7 +735,7 @@ fn history(rng: &mut Rng, len: usize, disciplined: bool) -> Case {
                 tags.push("op/poll_close".into());
             }
             _ => {
-                let pc = rng.chance(2, 3);
+                let pc = rng.chance(3, 4);
                 let mut sc = gen_script(rng, pc);
                 let ps = rng.chance(2, 3);
                 let ss = gen_script(rng, ps);
